@@ -203,6 +203,25 @@ func Program() {
 		m.expiry = 10
 	}
 	c := b.Build()
+	// optional prefill: reach deeper policy states cheaply (fill to capacity, then touch every key once or twice)
+	if pf := vx.Choice("prefill", vx.Param("prefills")); pf > 0 {
+		vx.ClockFreeze(false)
+		s0, n0 := vx.Now()
+		vx.ClockFreeze(true)
+		for k := 0; k < capacity && k < nkeys; k++ {
+			v := vx.Int64("pv")
+			c.Set(k, v)
+			m.set(k, v, s0, n0)
+		}
+		for round := 1; round < pf; round++ {
+			for k := 0; k < capacity && k < nkeys; k++ {
+				c.Get(k)
+				m.get(k, false)
+			}
+		}
+		vx.Drain()
+		vx.Reach("C15.prefilled")
+	}
 	L := vx.Param("L")
 	for i := 0; i < L; i++ {
 		vx.ClockFreeze(false)
